@@ -51,6 +51,7 @@ def plan(tier, seed):
             specs.append({'kind': 'misc', 'n': 60000, 'part': i})
         for i in range(32):
             specs.append({'kind': 'chains', 'values': 40, 'part': i, 'parts': 32})
+        specs.append({'kind': 'ambient'})
     return specs
 
 
@@ -216,6 +217,13 @@ def run_shard(spec, ctx):
                 drv.drive(1, D, M, Fraction(0), 'D.MM00>=360')
                 drv.drive(-1, D, M, Fraction(0), 'D.MM00>=360')
         ctx.sample({'kind': 'whole-second lattice 360..719 (stride)', 'lo': spec['lo'], 'hi': spec['hi'], 'stride': spec['stride']})
+    elif kind == 'ambient':
+        # the repository's own tests with every conversion monitored: realistic call patterns, and a guard against monitors
+        # that are stricter than the code's legitimate behaviour
+        core.run_repo_tests(ns, ['geodepy/tests/test_angles.py', 'geodepy/tests/test_convert.py', 'geodepy/tests/test_geodesy.py',
+                                 'geodepy/tests/test_coord.py', 'geodepy/tests/test_transform.py'], ctx)
+        ctx.bucket('ambient', 'repo-tests')
+        ctx.sample({'kind': 'ambient workload', 'files': 'geodepy/tests/test_{angles,convert,geodesy,coord,transform}.py'})
     elif kind == 'misc':
         _misc(drv, ctx, rnd, spec['n'])
     elif kind == 'chains':
